@@ -17,11 +17,13 @@ def tables : List (String → List String → Option String) := []
   ++ [Drv.table]
   ++ [Drv.monitorsTable]
   ++ [Drv.codecsTable]
+  ++ [Drv.codecsGenTable]
   ++ [Drv.TracksV1.specTable]
   ++ [Drv.T2.table]
   ++ [Drv.C15.table]
   ++ [Drv.TableApi.specTable]
   ++ [Drv.T2Db.table]
+  ++ [Drv.pureTable]
 
 /-- Stateful groups, selected by a first line `#mode <name>`. -/
 def modes : List Mode := []
